@@ -186,6 +186,12 @@ def tampered(doc, universe_paths):
     d = copy.deepcopy(doc)
     d["version"] = OTHER_VERSION
     out.append(("other-version", d))
+    d = copy.deepcopy(doc)
+    del d["version"]  # documents written by old releases carry no version at all
+    out.append(("no-version", d))
+    d = copy.deepcopy(doc)
+    d["version"] = None
+    out.append(("null-version", d))
     for p in sorted(doc["codebase"]["files"]):
         d = copy.deepcopy(doc)
         del d["codebase"]["files"][p]
@@ -267,7 +273,7 @@ def history_ops(paths, cids):
         ops.append(("swap", p, q))
     for e in EXCL:
         ops.append(("excl", e))
-    ops += [("tamper", "other-version"), ("tamper", "alter-first"), ("tamper", "drop-first"), ("tamper", "truncate")]
+    ops += [("tamper", "other-version"), ("tamper", "no-version"), ("tamper", "alter-first"), ("tamper", "drop-first"), ("tamper", "truncate")]
     return ops
 
 
@@ -326,6 +332,8 @@ def apply_op(root: Path, st, op):
         fs = sorted(doc["codebase"]["files"])
         if op[1] == "other-version":
             doc["version"] = OTHER_VERSION
+        elif op[1] == "no-version":
+            doc.pop("version", None)
         elif not fs:
             return False
         elif op[1] == "alter-first":
